@@ -38,15 +38,16 @@ func (c14) Info(tier string) fw.Info {
 	n, m := tierNM(tier)
 	return fw.Info{
 		Level: "exploration",
-		Rule: fmt.Sprintf("programs built to be sensitive to map order (>= 3 modules with shared helper/global naming schemes, objects with 4..12 fields printed whole / as JSON / key lists / through any-objects, many locals and shadowing, scopes with up to 25 unused items, impl blocks with several capabilities and methods, rejected programs whose messages print object types, programs ending in fatal errors with stack traces, singletons, match, objects with 4..12 fields of which 2..4 cannot be encoded as JSON — ranges, functions, non-finite floats, directly / in lists / options / nested objects — passed to to_json / to_json_indent as typed objects, any-objects, in lists and inside other objects, JSON decoding under an object type with several offending members, programs that write in place — option / list / string / number / nested-object fields — into objects whose storage the runtime handed out: default values of singletons of the entry and of an imported module, results of runtime casts, decoded JSON, and print every producer of `none` before and after, programs of 3..5 modules around a module that several others import with 1..4 lines carrying recoverable or critical syntax errors in the shared module / another imported module / the entry, rejected programs with one or two impl blocks — templates whose selected capabilities require 2..8 methods, some with pub / event modifiers and a default capability — in which two or more required methods are faulty at once: missing, one parameter too many / too few, renamed or retyped parameter, other return type, wrong modifier, singleton not extracted, plus additional methods / an unknown capability / an undeclared singleton), the generated programs of hv/prog and the shipped examples/tests; "+
-			"each program is analysed twice, compiled, run on the VM and on the interpreter N=%d times in one process (fewer for programs that execute more than 200k steps), with an unrelated program reusing the same module names run in between, and once more in each of M=%d fresh processes; "+
-			"compared component-wise: syntax errors, sorted diagnostic multiset (level, message, span), the same with notes, VM outcome with the full message and stack trace, VM output, VM host-call log, the same three for the interpreter, canonical dump of the compiler output. "+
+		Rule: fmt.Sprintf("programs built to be sensitive to map order (>= 3 modules with shared helper/global naming schemes, objects with 4..12 fields printed whole / as JSON / key lists / through any-objects, many locals and shadowing, scopes with up to 25 unused items, impl blocks with several capabilities and methods, rejected programs whose messages print object types, programs ending in fatal errors with stack traces, singletons, match, objects with 4..12 fields of which 2..4 cannot be encoded as JSON — ranges, functions, non-finite floats, directly / in lists / options / nested objects — passed to to_json / to_json_indent as typed objects, any-objects, in lists and inside other objects, JSON decoding under an object type with several offending members, programs that write in place — option / list / string / number / nested-object fields — into objects whose storage the runtime handed out: default values of singletons of the entry and of an imported module, results of runtime casts, decoded JSON, and print every producer of `none` before and after, programs of 3..5 modules around a module that several others import with 1..4 lines carrying recoverable or critical syntax errors in the shared module / another imported module / the entry, rejected programs with one or two impl blocks — templates whose selected capabilities require 2..8 methods, some with pub / event modifiers and a default capability — in which two or more required methods are faulty at once: missing, one parameter too many / too few, renamed or retyped parameter, other return type, wrong modifier, singleton not extracted, plus additional methods / an unknown capability / an undeclared singleton, programs that change in place what the host hands out — the list behind `import { any_list } from testing` through push / push_front / insert / pop / pop_front / remove / concat in main, loops, helper functions, function literals, before a caught throw and from a second importing module; the object `http.get` returns — and print it before, in between and after, programs that decode JSON objects containing 1..2 groups of keys that are different strings but equal after Unicode normalisation / case folding / trimming / unescaping, each member with its own value, among 0..8 ordinary keys, at top level / nested / in lists / inside a typed object, 2..5 times each, and print key counts, key lists, members, renderings, equality of two decodes and a re-decode), the generated programs of hv/prog and the shipped examples/tests; "+
+			"each program is analysed twice, compiled, run on the VM and on the interpreter N=%d times in one process (fewer for programs that execute more than 200k steps), with an unrelated program reusing the same module names run in between, and three times in each of M=%d fresh processes; in the first repetition of the case and in the first one of every fresh process the compile output is run by a second VM after the first one and the analysed modules are interpreted a second time (compiled once, run twice), and programs of the host-value and JSON-key families are also analysed, compiled and run with the repository's own testing hosts (TestingAnalyzerHost, TestingVmExecutor and their scope additions); "+
+			"compared component-wise: syntax errors, sorted diagnostic multiset (level, message, span), the same with notes, VM outcome with the full message and stack trace, VM output, VM host-call log, the same three for the interpreter, canonical dump of the compiler output, outcome and output under the repository's testing host; and within a repetition: second VM run = first VM run, second interpreter run = first interpreter run (outcome and host-call log). "+
 			"non-trivial = at least 3 repetitions completed and the program produced >= 2 diagnostics (syntax errors included) or ran with >= 3 lines of output; distinct = distinct sources", n, m),
 		Assumptions: []string{
 			"Go draws a new random iteration start for every range over a map and a new hash seed per map, so N repetitions in one process sample N iteration orders. For maps with at most 8 entries Go only rotates the insertion order, so an order that is reached from a single start offset is seen with probability 1/8 per repetition: it escapes N=20 repetitions plus 6 fresh-process observations with probability (7/8)^25 = 3.5%, N=100 with 2e-6",
 			"wall-clock dependent programs (any use of `time.`) are excluded from the corpus",
 			"the canonical code dump renames mangled global names by first occurrence (the counter is shared by all modules) and, while KF-c14-init-order is open, ignores the order of module initialiser calls outside the poisoned workload",
 			"the M fresh processes run first (3 repetitions each): a program that kills its host in every fresh process in its first repetition (up to 12 are tried) has the same outcome every time and is not a C14 event; a crash in some runs only is",
+			"a compile output (and the analysed modules) may be used for more than one run: a host that compiles a script once and runs it on every event is `running the same sources any number of times`; the second run must show what the first one showed (signature class vm-rerun: / tree-rerun:)",
 			"code-shape differences are reported as violations of `compilation is deterministic` with their own signature class (code:/init-order:), separate from output/outcome differences",
 		},
 		CaseTimeoutS: 240,
@@ -82,6 +83,8 @@ type Payload struct {
 	InitOrder bool `json:"init_order,omitempty"`
 	// Child: observe only (2 repetitions) and hand the observation back to the parent case.
 	Child bool `json:"child,omitempty"`
+	// RepoHost: the extra runs include a repetition under the repository's own testing hosts.
+	RepoHost bool `json:"repo_host,omitempty"`
 }
 
 // ---------------------------------------------------------------------------------------------
@@ -152,7 +155,7 @@ func (c14) Cases(tier string, seed uint64) []fw.Case {
 		Capture:     fw.KFOpen(KFCapture),
 	}
 	addWith := func(r *fw.Rng, id string, kind string, b Built, pl Payload) {
-		pl.Fam, pl.Src, pl.Templ, pl.Reps, pl.Procs = b.Fam, b.Src, b.Templ, n, m
+		pl.Fam, pl.Src, pl.Templ, pl.Reps, pl.Procs, pl.RepoHost = b.Fam, b.Src, b.Templ, n, m, b.RepoHost
 		if r.Chance(1, 3) {
 			pl.Alt = altFor(b.Src, r)
 		}
@@ -186,7 +189,13 @@ func (c14) Cases(tier string, seed uint64) []fw.Case {
 	jsonMixed := kfState(KFJsonKind, TagJsonMixed)
 	for fi, fam := range LateFamilyNames {
 		lr := fw.NewRng(seed ^ 0xC14 ^ uint64(fi+1)<<32)
-		for i := 0; i < perFam; i++ {
+		nFam := perFam
+		if fam == "hostvals" || fam == "jsonkeys" {
+			// every program of these families exercises its construct (self-tests in c14_test.go):
+			// half the number keeps the quick tier within its time budget
+			nFam = perFam / 2
+		}
+		for i := 0; i < nFam; i++ {
 			fr := lr.Fork()
 			p := Poison{JsonMixed: jsonMixed == kfFixed && fr.Chance(1, 3)}
 			b := Families[fam](fr, p)
@@ -294,6 +303,9 @@ type diff struct {
 }
 
 func (d diff) why() string {
+	if strings.HasSuffix(d.Comp, "-rerun") {
+		return fmt.Sprintf("the artefacts of one repetition were run twice and the second run shows something else than the first: it depends on the earlier run in the same process (%s):\n--- first run\n%s\n--- second run\n%s", d.Where, util.Clip(excerpt(d.First, d.Other), 900), util.Clip(excerpt(d.Other, d.First), 900))
+	}
 	return fmt.Sprintf("component %s differs between repetitions of the same program (%s):\n--- first observation\n%s\n--- other observation\n%s", d.Comp, d.Where, util.Clip(excerpt(d.First, d.Other), 900), util.Clip(excerpt(d.Other, d.First), 900))
 }
 
@@ -365,7 +377,7 @@ func (c14) Run(c fw.Case) fw.Result {
 		return res
 	}
 	res.Hash = fw.HashOf(src, p.Templ)
-	opts := ObsOpts{Templates: p.Templ, TreeBudget: treeBudget, InitOrder: p.InitOrder}
+	opts := ObsOpts{Templates: p.Templ, TreeBudget: treeBudget, InitOrder: p.InitOrder, RepoHost: p.RepoHost}
 	if p.Child {
 		// a fresh process: three repetitions, progress on stderr so that the parent can tell a
 		// crash in the first repetition from a crash after completed ones
@@ -403,6 +415,13 @@ func (c14) Run(c fw.Case) fw.Result {
 		}
 		if ob.IntraNotes != "" {
 			note("notes", where+", two analyses of the same repetition", ob.Notes, ob.IntraNotes)
+		}
+		// the artefacts of one repetition used twice: the second use must show what the first one did
+		if ob.VMReran && ob.VMRerun != ob.VMFirst() {
+			note("vm-rerun", where+": compiled once, then run by two VMs one after the other", ob.VMFirst(), ob.VMRerun)
+		}
+		if ob.TreeReran && ob.TreeRerun != ob.TreeFirst() {
+			note("tree-rerun", where+": analysed once, then interpreted twice", ob.TreeFirst(), ob.TreeRerun)
 		}
 	}
 
@@ -499,8 +518,8 @@ func (c14) Run(c fw.Case) fw.Result {
 			rawCodes[ob.RawCode] = true
 			where := fmt.Sprintf("repetition %d of %d in one process", i+j, reps)
 			for _, comp := range components {
-				if a, b := first.Get(comp), ob.Get(comp); a != b {
-					note(comp, where, a, b)
+				if first.Differs(&ob, comp) {
+					note(comp, where, first.Get(comp), ob.Get(comp))
 				}
 			}
 			intra(&ob, where)
@@ -510,8 +529,8 @@ func (c14) Run(c fw.Case) fw.Result {
 	for k, rep := range kids {
 		where := fmt.Sprintf("fresh process %d", k)
 		for _, comp := range components {
-			if a, b := first.Get(comp), rep.Obs.Get(comp); a != b {
-				note(comp, where, a, b)
+			if first.Differs(&rep.Obs, comp) {
+				note(comp, where, first.Get(comp), rep.Obs.Get(comp))
 			}
 		}
 		intra(&rep.Obs, where)
@@ -554,11 +573,21 @@ func (c14) Run(c fw.Case) fw.Result {
 	if p.Alt != nil {
 		res.Cover = append(res.Cover, "with-interferer")
 	}
+	if first.VMReran {
+		res.Cover = append(res.Cover, "vm-rerun-compared")
+		res.Obs["reruns_of_one_compile_output"] = int64(1 + children)
+	}
+	if first.TreeReran {
+		res.Cover = append(res.Cover, "tree-rerun-compared")
+	}
+	if first.RepoHostVM != "" {
+		res.Cover = append(res.Cover, "repohost:"+outcomeClass(strings.TrimPrefix(strings.SplitN(first.RepoHostVM, "\n", 2)[0], "outcome: ")))
+	}
 	if c.HasTag(TagJsonMixed) {
 		res.Cover = append(res.Cover, "construct:"+TagJsonMixed)
 	}
 	for _, t := range c.Tags {
-		if strings.HasPrefix(t, "cell-") || strings.HasPrefix(t, "syn-") || strings.HasPrefix(t, "implerr-") {
+		if strings.HasPrefix(t, "cell-") || strings.HasPrefix(t, "syn-") || strings.HasPrefix(t, "implerr-") || strings.HasPrefix(t, "host-") || strings.HasPrefix(t, "jkey-") {
 			res.Cover = append(res.Cover, "construct:"+t)
 		}
 	}
